@@ -46,14 +46,26 @@ HARNESSES = [
   'oracle': 'arguments == reference split at top-level commas only, blanks trimmed, empty arguments kept; position just past the matching )',
   'bounds': {'quick': {'defs': {'AMAX': 5}, 'unwind': 7, 'cap': 600},
              'thorough': {'defs': {'AMAX': 7}, 'unwind': 9, 'cap': 3000}}},
+ {'id': 'c08_self_suppress',
+  'property': 'C08',
+  'src': 'c08_rescan.cxx',
+  'entry': 'harness_c08_self_suppress',
+  'tus': _TUS, 'skip_ctors': _SKIP, 'cut': ['_ZN15CPPPreprocessor9InputFile13connect_inputERKNSt7__cxx1112basic_stringIcSt11char_traitsIcESaIcEEE'], 'tuflags': ['-fno-inline'], 'models': ['noinline.c'],
+  'desc': 'suppression of self-referential expansion on the lexer path: push_expansion / should_ignore_manifest as one inductive step',
+  'domain': 'three macros of symbolic kind (object-like, function-like with 0 or 1 parameters); a stack of up to DEPTH pending expansions of '
+            'symbolically chosen macros that are not suppressed at that moment',
+  'oracle': 'after push_expansion(text, m): should_ignore_manifest(m) holds, and every macro suppressed before is still suppressed (hence the '
+            'expansion depth is bounded by the number of macros and a self-referential macro is left unexpanded as C11 6.10.3.4p2 requires)',
+  'bounds': {'quick': {'defs': {'DEPTH': 3}, 'unwind': 6, 'cap': 300},
+             'thorough': {'defs': {'DEPTH': 4}, 'unwind': 7, 'cap': 1200}}},
 ]
 
 PROPERTY_INFO = {'C08': {'level': 'model_checking',
          'explanation': 'bounded symbolic execution (CBMC) of the real CPPManifest::stringify and CPPManifest::extract_args against references '
                         'written from C11 6.10.3 / 6.10.3.2 over every short text of a small alphabet',
          'outside': 'definition -> expansion of a whole macro (constructor + save_expansion + r_expand: the nested hand-written scanners exceed the '
-                    'solver budget on symbolic bodies; their totality on short texts is under C15); rescanning and nested expansion, self-reference '
-                    'suppression, multi-line invocations, #undef/push_macro, the lexer-driven path get_identifier -> expand_manifest -> '
+                    'solver budget on symbolic bodies; their totality on short texts is under C15); rescanning and nested expansion as token sequences (the suppression of self-referential expansion is decided as an '
+                    'inductive step on push_expansion/should_ignore_manifest, not on expanded text), multi-line invocations, #undef/push_macro, the lexer-driven path get_identifier -> expand_manifest -> '
                     'push_expansion; white-space normalisation of arguments before stringification; the "Not enough / Too many arguments" warnings',
          'assumptions': ['inputs with unterminated string/character literals are excluded from the conformance oracles (undefined behaviour per '
                          'C11 6.4p3); they are covered for totality under C15',
